@@ -32,7 +32,7 @@ Definition select_case (templates : bool) (os : list nat) : option dcase :=
   let inner := filter (fun c => same_outer (dc_corder c) oc) dispatch_cases in
   match find (fun c => active templates (dc_templ c) && label_is (dc_ndim c) (length os)) inner with
   | Some c => Some c
-  | None => find (fun c => is_default (dc_ndim c)) inner
+  | None => find (fun c => active templates (dc_templ c) && is_default (dc_ndim c)) inner
   end.
 
 Definition orders_are (os guard : list nat) : bool :=
